@@ -74,6 +74,10 @@ class Susp:
         return reply
 
 
+class LivelockError(Exception):
+    """raised into observations when a hand-driven operation does not finish within the step budget"""
+
+
 class Driven:
     """Result of driving a coroutine to completion by hand."""
 
@@ -85,7 +89,7 @@ class Driven:
         self.tokens = []
 
 
-def drive(coro, reply=None, max_steps=100000):
+def drive(coro, reply=None, max_steps=20000):
     """Run `coro` by hand. `reply(i, tok)` -> ("send", v) | ("throw", exc); default sends tok back."""
     res = Driven()
     action = ("send", None)
@@ -103,8 +107,14 @@ def drive(coro, reply=None, max_steps=100000):
             return res
         res.tokens.append(tok)
         action = reply(len(res.tokens) - 1, tok) if reply is not None else ("send", ("r", tok))
-    coro.close()
-    raise RuntimeError("drive: step budget exhausted")
+    # the operation never finished: report it as an outcome (a livelock of the code under test is behaviour, not a
+    # harness failure); callers see it as an exception of type LivelockError
+    try:
+        coro.close()
+    except BaseException:  # noqa: B036
+        pass
+    res.exc = LivelockError("operation still suspended after %d steps; last token %r" % (max_steps, res.tokens[-1] if res.tokens else None))
+    return res
 
 
 def exc_name(exc):
